@@ -442,14 +442,14 @@ func c08Decoded(s string) string {
 	return sb.String()
 }
 
-// ---- C03-F5 avoidance --------------------------------------------------------------
+// ---- the domain of C03-F5 ---------------------------------------------------------
 //
-// radixtree.findNode overwrites its captures with what a failed static child
-// returns (nil after a dead end), so the wildcard / catch-all alternatives of the
-// same node run with the earlier captures lost (finding C03-F5, owned by C03; it
-// can also panic in pathParamMatcher).  The C08 model abstracts the tree to a
-// segment-wise search, so requests that can reach that situation are kept out of
-// this stream by a criterion on the INPUT only (never on what the real code did):
+// Before the fix: commit 16cf34b radixtree.findNode overwrote its captures with what a
+// failed static child returned (nil after a dead end), so the wildcard / catch-all
+// alternatives of the same node ran with the earlier captures lost (finding C03-F5,
+// owned by C03; it could also panic in pathParamMatcher).  The C08 model abstracts
+// the tree to a segment-wise search; requests that can reach that situation are
+// recognised by a criterion on the INPUT only (never on what the real code did):
 // the segment-wise search visits a level with at least one capture pending, where
 // a static child that the tree would enter exists (a literal with the same first
 // byte, or an empty literal), wildcard / catch-all alternatives exist, and the
@@ -584,10 +584,15 @@ func c08Risky(c c08Case) bool {
 	return false
 }
 
-// c08Gen draws cases until one is outside the domain of C03-F5 (deterministic per fork).
+// c08Gen draws one case.  Until the fix: commit 16cf34b (C03-F5) the cases in the
+// domain of C03-F5 were skipped here; they are now part of the stream and tagged
+// "c08:c03-f5-domain".  Set VERIF_C08_AVOID_C03F5=1 to skip them again (needed only
+// when the check is run against a tree without that commit).
 func c08Gen(r *vf.Rand) c08Case {
+	avoid := vf.EnvInt("VERIF_C08_AVOID_C03F5", 0) == 1
+
 	for {
-		if c := c08Gen1(r); !c08Risky(c) {
+		if c := c08Gen1(r); !avoid || !c08Risky(c) {
 			return c
 		}
 	}
@@ -867,6 +872,10 @@ func c08Tags(c c08Case, o c08Obs) []string {
 		if len(o.A.Caps) > 0 {
 			tags = append(tags, "c08:re-encoded-same-rule-with-captures")
 		}
+	}
+
+	if c08Risky(c) {
+		tags = append(tags, "c08:c03-f5-domain")
 	}
 
 	for _, r := range c.Rules {
